@@ -184,7 +184,16 @@ def build_gate(case, objs):
         return qib.ISwapGate(ps[0], ps[1])
     if k == "single":
         cls = getattr(qib.operator, gd["cls"])
+        if gd["cls"] == "RotationGate":
+            return cls(np.array(gd["args"][0], dtype=float), ps[0])
         return cls(*gd.get("args", []), ps[0])
+    if k == "timeevo":
+        # exp(-i t H) of a real-weighted Pauli operator on ALL sites of one field (the gate's particles are the field's sites)
+        op = qib.operator
+        fld = objs[gd["fid"]]
+        h = op.PauliOperator([op.WeightedPauliString(op.PauliString.from_string(s_), w) for s_, w in gd["terms"]])
+        h.set_field(fld)
+        return qib.TimeEvolutionGate(h, gd["t"])
     if k == "rzz":
         return getattr(qib.operator, gd["cls"])(gd["theta"], ps[0], ps[1])
     if k == "phase":
@@ -235,7 +244,10 @@ def impl(case):
             return {"coo": coo_canon(sp), "shape": list(sp.shape), **extra}
         if op == "permute":
             u = relayout(np.array([[complex(a, b) for a, b in row] for row in case["u"]]), case.get("layout"))
-            r = _ctx["qib"].util.permute_gate_wires(u, case["perm"])
+            form = case.get("permform", "list")      # the permutation as a list, a tuple, an integer array or a range object: the same permutation
+            perm = {"list": list, "tuple": tuple, "array": lambda v: np.array(v, dtype=int), "int8": lambda v: np.array(v, dtype=np.int8),
+                    "range": lambda v: range(len(v))}[form](case["perm"])
+            r = _ctx["qib"].util.permute_gate_wires(u, perm)
             return {"mat": dense_json(r)}
         if op == "wire":
             fields, objs = build_fields(case)
@@ -503,7 +515,10 @@ def rand_gate_desc(rng, max_m):
             return {"kind": "iswap"}, 2
         if k == "single":
             cls, args = rng.choice([("HadamardGate", []), ("PauliYGate", []), ("SGate", []), ("TGate", []), ("SxGate", []),
-                                    ("RxGate", [rng.uniform(-3, 3)]), ("RyGate", [rng.uniform(-3, 3)]), ("RzGate", [rng.uniform(-3, 3)])])
+                                    ("RxGate", [rng.uniform(-3, 3)]), ("RyGate", [rng.uniform(-3, 3)]), ("RzGate", [rng.uniform(-3, 3)]),
+                                    ("SAdjGate", []), ("TAdjGate", []), ("PauliXGate", []), ("PauliZGate", []), ("IdentityGate", []),
+                                    ("RotationGate", [[rng.uniform(-3, 3), rng.uniform(-3, 3), rng.uniform(-3, 3)]]),
+                                    ("RotationGate", [[rng.uniform(-3, 3), rng.uniform(-3, 3), rng.uniform(-3, 3)]])])
             return {"kind": "single", "cls": cls, "args": args}, 1
         if k == "rzz" and max_m >= 2:
             return {"kind": "rzz", "cls": rng.choice(["RxxGate", "RyyGate", "RzzGate"]), "theta": rng.uniform(-3, 3)}, 2
@@ -610,6 +625,9 @@ def gen_permute(tier, rng):
         for perm in itertools.permutations(range(nw)):
             for lay in (LAYOUTS if nw >= 1 else ("C",)):
                 yield {"op": "permute", "perm": list(perm), "u": rand_gauss(rng, 2 ** nw), "layout": lay}
+            if nw >= 1:
+                for form in ("tuple", "array", "int8") + (("range",) if list(perm) == list(range(nw)) else ()):
+                    yield {"op": "permute", "perm": list(perm), "u": rand_gauss(rng, 2 ** nw), "layout": "C", "permform": form}
     for nw in range(1, 4):
         for _ in range(6):
             perm = [rng.randrange(nw + 1) for _ in range(nw)]
